@@ -181,7 +181,8 @@ def addr(payload):
                     p3 = rng.randrange(n)
                     if p3 not in want_src:
                         srcs.append(dict(pulse=p3, tag=None, v=[2.0, 0.0])); want_src.append(p3)
-                pl = rng.randrange(n)
+                junc_ = [int(p.idx) for p in m.pulses if p.segs[0].geobj is not p.segs[1].geobj]
+                pl = rng.choice(junc_) if (junc_ and rng.random() < 0.7) else rng.randrange(n)
                 loads = [dict(kind='imp', z=[7.0, 3.0], attach=[[None, ta], [None, tb]]),
                          dict(kind='imp', z=[11.0, -5.0], attach=[[pl], [rng.randrange(len(blocks[tb])), tb]])]
                 want_l2 = sorted([pl, blocks[tb][loads[1]['attach'][1][0]]])
@@ -197,6 +198,19 @@ def addr(payload):
                                     src=[int(s_.idx) for s_ in mc.sources], want_src=want_src,
                                     load1=sorted(eff.get((7.0, 3.0), [])), want_load1=sorted(blocks[ta] + blocks[tb]),
                                     load2=sorted(eff.get((11.0, -5.0), [])), want_load2=want_l2)
+                    # the option writer in per-object form, read back: the loads sit on the same pulses
+                    t1 = mc.as_cmdline(load_by_geo=True)
+                    mr = M.main(t1.split(), f_err=io.StringIO(), return_mininec=True)
+                    if isinstance(mr, int):
+                        o['cli']['rewritten'] = None
+                    else:
+                        eff2 = {}
+                        for l_ in mr.loads:
+                            for q in l_.pulses:
+                                key = complex(l_.impedance(mr.f, q))
+                                eff2.setdefault((key.real, key.imag), []).append(int(q.idx))
+                        o['cli']['rewritten'] = [sorted(eff2.get((7.0, 3.0), [])), sorted(eff2.get((11.0, -5.0), []))]
+                        o['cli']['attach_written'] = [a for a in t1.split() if a.startswith('--attach-load')]
             # compute_tags on its own
             tin = [rng.choice([None, None, rng.randint(1, 12)]) for _ in range(rng.randint(1, 6))]
             objs = [M.Wire(1, 0, 0, k, 0, 0, k + 1.0, 0.001, tag=t) for k, t in enumerate(tin)]
